@@ -338,6 +338,10 @@ package memefish
 // @ spec strLitAt(buf, p) = p < len(buf) && (isQ(buf[p]) || (isR(buf[p]) && p + 1 < len(buf) && isQ(buf[p + 1])))
 // @ spec bytesLitAt(buf, p) = p + 1 < len(buf) && ((isB(buf[p]) && isQ(buf[p + 1])) || (p + 2 < len(buf) && isQ(buf[p + 2]) && ((isB(buf[p]) && isR(buf[p + 1])) || (isR(buf[p]) && isB(buf[p + 1])))))
 // @ spec identRun(buf, a, b) = a <= b && b <= len(buf) && (forall k: a <= k && k < b ==> isIdentPart(buf[k])) && (b == len(buf) || !isIdentPart(buf[b]))
+// kinds whose spelling is not their kind: literals, identifiers, parameters, <bad>, <eof>
+// @ spec literalKind(k) = k == "<ident>" || k == "<param>" || k == "<int>" || k == "<float>" || k == "<string>" || k == "<bytes>" || k == "<bad>" || k == "<eof>" || k == ""
+// keywords and punctuation are as long as their kind; a parameter is '@' plus its name
+// @ spec kindLen(l, p) = (!literalKind(l.Token.Kind) ==> l.pos - p == len(l.Token.Kind)) && (l.Token.Kind == "<param>" ==> len(l.Token.AsString) == l.pos - p - 1)
 // @ spec dotCtx(k) = k == "<ident>" || k == "<param>" || k == ")" || k == "]"
 
 // @ func memefish.(*Lexer).consumeToken
@@ -354,6 +358,7 @@ package memefish
 // @   ensures[C12,C14] punct1: punct1(l, old(l.pos))
 // @   ensures[C10,C14] shr: l.Token.Kind == ">>" ==> l.pos == old(l.pos) + 2
 // @   ensures l.Token.Kind != ""
+// @   ensures[C05,C06,C14] kindlen: kindLen(l, old(l.pos))
 // @   ensures[C14] single: p < len(l.Buffer) && single1(b0) ==> len(l.Token.Kind) == 1 && l.Token.Kind[0] == b0 && l.pos == p + 1
 // @   ensures[C14] lt: p < len(l.Buffer) && b0 == '<' ==> ite(nextIs(l.Buffer, p, '<'), tokIs(l, p, "<<", 2), ite(nextIs(l.Buffer, p, '='), tokIs(l, p, "<=", 2), ite(nextIs(l.Buffer, p, '>'), tokIs(l, p, "<>", 2), tokIs(l, p, "<", 1))))
 // @   ensures[C14] gt: p < len(l.Buffer) && b0 == '>' ==> ite(nextIs(l.Buffer, p, '>'), tokIs(l, p, ">>", 2), ite(nextIs(l.Buffer, p, '='), tokIs(l, p, ">=", 2), tokIs(l, p, ">", 1)))
@@ -388,6 +393,7 @@ package memefish
 // @   requires LexInv(l)
 // @   ensures[C10,C14] shr: l.Token.Kind == ">>" ==> l.pos == old(l.pos) + 2
 // @   ensures l.Token.Kind != ""
+// @   ensures[C05,C06,C14] kindlen: kindLen(l, old(l.pos))
 // @   ensures[C14] field: old(l.pos) < len(l.Buffer) && isIdentPart(l.Buffer[old(l.pos)]) ==> l.Token.Kind == "<ident>" && identRun(l.Buffer, old(l.pos), l.pos) && isSub(l.Token.AsString, l.Buffer, old(l.pos), l.pos)
 // @   ensures LexInv(l) && old(l.pos) <= l.pos
 // @   ensures (l.Token.Kind == "<eof>") == (old(l.pos) >= len(l.Buffer))
@@ -424,6 +430,7 @@ package memefish
 // @   ensures[C13] nonempty: l.Token.Kind != "<eof>" && l.Token.Kind != "<bad>" ==> l.Token.Pos < l.Token.End
 // @   ensures[C03] badempty: l.Token.Kind == "<bad>" && l.Token.Pos == l.Token.End ==> l.Token.Pos == len(l.Buffer)
 // @   ensures[C13] rawlen: len(l.Token.Raw) == l.Token.End - l.Token.Pos
+// @   ensures[C05,C06,C14] kindlen: (!literalKind(l.Token.Kind) ==> l.Token.End - l.Token.Pos == len(l.Token.Kind)) && (l.Token.Kind == "<param>" ==> len(l.Token.AsString) == l.Token.End - l.Token.Pos - 1)
 // @   ensures[C13,C03] progress: l.Token.Kind != "<eof>" ==> l.pos > old(l.pos)
 // @   ensures l.lastTokenKind == old(l.Token.Kind)
 // @   ensures !noPanic ==> l.Token.Kind != "<bad>"
